@@ -102,7 +102,7 @@ theorem route_url_split (e : Env) (o : Ovr) (sch auth pre : Text) (hc : UrlCtx e
     (hu : routeUrl e routes name elems kw o = .ok u) :
     ∃ path, routeGenerate kw pieces = .ok path ∧
       urlsplit u = some ⟨sch.map lowerC, auth, pre ++ path ++ routeSuffix path elems,
-                         (qsOpt o.query).getD [], (fragOpt o.anchor).getD []⟩ := by
+                         (qsOpt o.query).getD [], (fragOpt o.anchor o.anchorTruthy).getD []⟩ := by
   unfold routeUrl at hu
   rw [hr] at hu
   simp only at hu
@@ -113,7 +113,7 @@ theorem route_url_split (e : Env) (o : Ovr) (sch auth pre : Text) (hc : UrlCtx e
     subst hu
     refine ⟨path, hp, ?_⟩
     rw [hc.app]
-    exact assembled_split gen_facts sch auth pre path _ o.query o.anchor hc.origin hc.pre
+    exact assembled_split gen_facts sch auth pre path _ o.query o.anchor o.anchorTruthy hc.origin hc.pre
       (routeGenerate_lead gen_facts kw pieces path hw hp) (routeGenerate_wf gen_facts kw pieces path hp)
       (routeSuffix_wf gen_facts path elems)
 
@@ -134,7 +134,7 @@ theorem rfc3986_chars (e : Env) (o : Ovr) (sch auth pre : Text) (hc : UrlCtx e o
         simp only [Except.ok.injEq] at hu
         subst hu
         rw [hc.app]
-        exact assembled_wf gen_facts sch auth pre path _ o.query o.anchor hc.origin.schemeChars hc.authWF hc.pre.wf
+        exact assembled_wf gen_facts sch auth pre path _ o.query o.anchor o.anchorTruthy hc.origin.schemeChars hc.authWF hc.pre.wf
           (routeGenerate_wf gen_facts kw pieces path hp) (routeSuffix_wf gen_facts path elems)
   exact ⟨hwf, urlC_of_wf u hwf⟩
 
@@ -205,7 +205,11 @@ theorem anchor_roundtrip (e : Env) (o : Ovr) (sch auth pre : Text) (hc : UrlCtx 
   refine ⟨_, hs, ?_⟩
   simp only [fragOpt]
   split
-  · rename_i h; rw [h]; exact unquote_nil
+  · rename_i h
+    have : o.anchor = [] := by
+      simp only [Bool.and_eq_true, Bool.not_eq_true'] at h
+      simpa using h.1
+    rw [this]; exact unquote_nil
   · exact quote_roundtrip _ (safeOk_of_within _ _ gen_facts.anchor) o.anchor
 
 /-! ## 4. scheme / host / port overrides, default ports, `_app_url` -/
@@ -386,7 +390,7 @@ theorem app_url_precedence (e e' : Env) (o : Ovr) (a : Text) (ha : o.appUrl = so
 either (`route_path` ignores them).  Holds for every input, including the ones that need quoting in
 `SCRIPT_NAME` (F-C17a, fixed). -/
 theorem path_variant_eq_url_minus_authority (e : Env) (o o' : Ovr) (hno : o.appUrl = none)
-    (hq : o'.query = o.query) (ha : o'.anchor = o.anchor)
+    (hq : o'.query = o.query) (ha : o'.anchor = o.anchor) (hat : o'.anchorTruthy = o.anchorTruthy)
     (routes : Routes) (name : Text) (elems : List Text) (kw : Kw) :
     (∀ u, routeUrl e routes name elems kw o = .ok u →
       ∃ p, routePath e routes name elems kw o' = .ok p ∧ u = originText (originOf e o) ++ p) ∧
@@ -394,7 +398,7 @@ theorem path_variant_eq_url_minus_authority (e : Env) (o o' : Ovr) (hno : o.appU
   have happ := appUrlOf_eq gen_facts e o hno
   constructor
   · intro u hu
-    simp only [routePath, routeUrl, appUrlOf, hq, ha] at hu ⊢
+    simp only [routePath, routeUrl, appUrlOf, hq, ha, hat] at hu ⊢
     split at hu
     · simp at hu
     · split at hu
@@ -416,13 +420,13 @@ theorem path_variant_eq_url_minus_authority (e : Env) (o o' : Ovr) (hno : o.appU
 /-- the same through the standard parser: dropping `scheme://netloc`, as found by `urlsplit`, from the
 `route_url` result gives the `route_path` result (well-formed origin texts, bracketed IPv6 hosts included). -/
 theorem path_variant_by_parser (e : Env) (o o' : Ovr) (hno : o.appUrl = none)
-    (hq : o'.query = o.query) (ha : o'.anchor = o.anchor)
+    (hq : o'.query = o.query) (ha : o'.anchor = o.anchor) (hat : o'.anchorTruthy = o.anchorTruthy)
     (htx : OriginTextsOk (originOf e o)) (hsn : ScriptOk e)
     (routes : Routes) (name : Text) (pieces : List Piece) (hr : routes.lookup name = some pieces)
     (hw : RouteWF pieces) (elems : List Text) (kw : Kw) (u : Text)
     (hu : routeUrl e routes name elems kw o = .ok u) :
     ∃ p, routePath e routes name elems kw o' = .ok p ∧ minusAuthority u = some p := by
-  obtain ⟨p, hp, hup⟩ := (path_variant_eq_url_minus_authority e o o' hno hq ha routes name elems kw).1 u hu
+  obtain ⟨p, hp, hup⟩ := (path_variant_eq_url_minus_authority e o o' hno hq ha hat routes name elems kw).1 u hu
   refine ⟨p, hp, ?_⟩
   have hctx := app_url_shape e o hno htx hsn
   obtain ⟨path, _, hs⟩ := route_url_split e o _ _ _ hctx routes name pieces hr hw elems kw u hu
@@ -459,7 +463,7 @@ theorem resource_url_split (e : Env) (o : Ovr) (sch auth pre : Text) (hc : UrlCt
     (routes : Routes) (names elems : List Text) (u : Text)
     (hu : resourceUrl e routes names elems o none = .ok u) :
     urlsplit u = some ⟨sch.map lowerC, auth, pre ++ virtualPath names ++ (if elems = [] then [] else joinElements elems),
-                       (qsOpt o.query).getD [], (fragOpt o.anchor).getD []⟩ ∧
+                       (qsOpt o.query).getD [], (fragOpt o.anchor o.anchorTruthy).getD []⟩ ∧
     pctWF isUrlC u = true := by
   simp only [resourceUrl, Except.ok.injEq] at hu
   subst hu
@@ -469,9 +473,9 @@ theorem resource_url_split (e : Env) (o : Ovr) (sch auth pre : Text) (hc : UrlCt
     split
     · rfl
     · exact joinElements_wf gen_facts elems
-  exact ⟨assembled_split gen_facts sch auth pre _ _ o.query o.anchor hc.origin hc.pre ⟨a, ha⟩
+  exact ⟨assembled_split gen_facts sch auth pre _ _ o.query o.anchor o.anchorTruthy hc.origin hc.pre ⟨a, ha⟩
       (virtualPath_wf gen_facts names) hsuf,
-    assembled_wf gen_facts sch auth pre _ _ o.query o.anchor hc.origin.schemeChars hc.authWF hc.pre.wf
+    assembled_wf gen_facts sch auth pre _ _ o.query o.anchor o.anchorTruthy hc.origin.schemeChars hc.authWF hc.pre.wf
       (virtualPath_wf gen_facts names) hsuf⟩
 
 /-- elements appended to a resource URL decode back -/
@@ -490,10 +494,10 @@ theorem resource_elements_roundtrip (e : Env) (o : Ovr) (sch auth pre : Text) (h
 
 /-- `resource_path` = `resource_url` minus `scheme://authority` -/
 theorem resource_path_variant (e : Env) (o o' : Ovr) (hno : o.appUrl = none)
-    (hq : o'.query = o.query) (ha : o'.anchor = o.anchor) (routes : Routes) (names elems : List Text) (u : Text)
+    (hq : o'.query = o.query) (ha : o'.anchor = o.anchor) (hat : o'.anchorTruthy = o.anchorTruthy) (routes : Routes) (names elems : List Text) (u : Text)
     (hu : resourceUrl e routes names elems o none = .ok u) :
     ∃ p, resourcePath e routes names elems o' none = .ok p ∧ u = originText (originOf e o) ++ p := by
-  simp only [resourceUrl, resourcePath, Except.ok.injEq, appUrlOf, hq, ha] at hu ⊢
+  simp only [resourceUrl, resourcePath, Except.ok.injEq, appUrlOf, hq, ha, hat] at hu ⊢
   refine ⟨_, rfl, ?_⟩
   rw [← hu]
   have happ := appUrlOf_eq gen_facts e o hno
